@@ -2,7 +2,7 @@
 # usage: tools/mutant.sh <patch.diff> <ID> [<ID>...]   [env SKIP_BASELINE=1] [env TIER=quick]
 # Applies the patch to a scratch copy of /repo, runs the pinned baseline there (must still pass for the mutant to
 # count), runs the named checks against the copy (MCK_REPO), prints DETECTED / MISSED per check, removes the copy.
-patch="$1"; shift
+patch=$(readlink -f "$1"); shift
 d=$(mktemp -d /var/tmp/mut-XXXXXX)
 rsync -a --exclude .git --exclude __pycache__ /repo/ "$d/"
 if ! (cd "$d" && patch -p1 -s < "$patch"); then echo "PATCH-FAILED $patch"; rm -rf "$d"; exit 3; fi
